@@ -7,6 +7,7 @@
 import Proofs.C08
 import Proofs.C08Ext
 import Proofs.C08ExtCex
+import Proofs.StoreRecorded
 
 namespace MongoModel.Props.C08
 open MongoModel MongoModel.Spec
@@ -77,7 +78,49 @@ theorem ordered_error_details (cfg : Cfg) (now : Int) (c : Coll) (ds : List Val)
 /-! ## Extension: find_one_and_*, update_many, bulk_write (model: `stepX`, FindModify.lean)
 
 "As it was" is `Spec.Untouched now c c'`: `c'` is `c` itself or `c` after the lazy expiry pass at
-the same clock, up to the counter of generated ObjectIds. -/
+the same clock, up to the counter of generated ObjectIds.
+
+The exact-state theorems below are stated for collections in which existence is recorded
+(`Coll.Recorded`: one that holds a document or an index has its created flag set) - every
+collection a history reaches (`reachable_recorded`).  The reason: an insert that the uniqueness
+check rejects has already gone through `self._store[object_id] = data`, which sets
+`_is_force_created`, and the rollback discards the document but leaves the flag; a unique index is
+needed for that, so on a recorded collection the flag was set already and nothing at all changes.
+On a hand-made state with an index but no flag the write does leave that trace
+(`failed_write_sets_flag_on_unrecorded`).  What a client can observe at that clock, and the index
+tables, are unchanged whatever the state (`failed_single_write_noop`, `fam_failed_history_noop`). -/
+
+/-- **Existence is recorded in every reachable state**: after every history of `runX` (all modelled
+    operations, from the empty collection) a collection that holds a document or an index has its
+    created flag set. -/
+theorem reachable_recorded (cfg : Cfg) (ops : List Val) : (runX cfg ops).2.c.Recorded :=
+  Proofs.Recorded.recorded_runX cfg ops
+
+/-- ... and every single operation keeps it so -/
+theorem recorded_preserved (cfg : Cfg) (now : Int) (c : Coll) (op : Val) (hr : c.Recorded) :
+    (stepX cfg now c op).1.Recorded :=
+  Proofs.Recorded.recorded_stepX cfg now c op hr
+
+example : (runX {} [.arr [.str "insert_one", .doc [("_id", .int 1)]],
+    .arr [.str "delete_many", .doc []]]).2.c.forceCreated = true := by decide +kernel
+
+/-- a hand-made collection with a unique index and a document but no created flag (no history
+    reaches it) -/
+def unrecordedColl : Coll :=
+  { docs := [(.int 1, .doc [("_id", .int 1), ("a", .int 1)])],
+    indexes := [{ name := "a_1", keys := [("a", .int 1)], unique := true }] }
+
+/-- on it, an insert rejected by the unique index leaves a trace: the created flag is set -/
+theorem failed_write_sets_flag_on_unrecorded :
+    ¬ unrecordedColl.Recorded ∧
+    (stepColl {} 0 unrecordedColl
+      (.arr [.str "insert_one", .doc [("_id", .int 2), ("a", .int 1)]])).2.isErr = true ∧
+    (stepColl {} 0 unrecordedColl
+      (.arr [.str "insert_one", .doc [("_id", .int 2), ("a", .int 1)]])).1.forceCreated = true ∧
+    unrecordedColl.forceCreated = false := by
+  refine ⟨fun h => ?_, by decide +kernel, by decide +kernel, rfl⟩
+  have := h (Or.inl (by decide))
+  cases this
 
 /-- What `Untouched` guarantees: nothing a client can observe at that clock has changed, the index
     tables are the same, and the stored documents are those of `c` or of `c` after the expiry
@@ -92,24 +135,37 @@ theorem untouched_observable (now : Int) (c c' : Coll) (h : Untouched now c c') 
     (insert_one, update_one, replace_one, delete_one, delete_many): the exact-state form of
     `failed_single_write_noop`, `delete_many` included. -/
 theorem failed_atomic_write_untouched (cfg : Cfg) (now : Int) (c : Coll) (op : Val)
-    (ha : atomicWrite op = true) (he : (stepColl cfg now c op).2.isErr = true) :
+    (hr : c.Recorded) (ha : atomicWrite op = true)
+    (he : (stepColl cfg now c op).2.isErr = true) :
     Untouched now c (stepColl cfg now c op).1 :=
-  Proofs.C08Ext.failed_atomic_write_untouched cfg now c op ha he
+  Proofs.C08Ext.failed_atomic_write_untouched cfg now c op hr ha he
 
 /-- non-vacuity: a `delete_many` whose filter raises on a collection of two documents -/
-example : atomicWrite (.arr [.str "delete_many", .doc [("a", .doc [("$in", .int 1)])]]) = true ∧
+example : Proofs.C08Ext.manyWitnessColl.Recorded ∧
+    atomicWrite (.arr [.str "delete_many", .doc [("a", .doc [("$in", .int 1)])]]) = true ∧
     (stepColl {} 0 Proofs.C08Ext.manyWitnessColl
-      (.arr [.str "delete_many", .doc [("a", .doc [("$in", .int 1)])]])).2.isErr = true := by
-  decide +kernel
+      (.arr [.str "delete_many", .doc [("a", .doc [("$in", .int 1)])]])).2.isErr = true :=
+  ⟨Proofs.C08Ext.witness_colls_recorded.2.1, by decide +kernel, by decide +kernel⟩
+
+/-- non-vacuity with the created flag at stake: in a reachable state (a document, then a unique
+    index) an insert that the unique index rejects - after it was stored - raises -/
+example : (runX {} [.arr [.str "insert_one", .doc [("_id", .int 1), ("a", .int 1)]],
+      .arr [.str "create_index", .arr [.arr [.str "a", .int 1]], .doc [("unique", .bool true)]]]).2.c.Recorded ∧
+    (match (runX {} [.arr [.str "insert_one", .doc [("_id", .int 1), ("a", .int 1)]],
+      .arr [.str "create_index", .arr [.arr [.str "a", .int 1]], .doc [("unique", .bool true)]]]).2 with
+     | s => insertStored s.now s.c (.doc [("_id", .int 2), ("a", .int 1)]) &&
+         (stepColl {} s.now s.c (.arr [.str "insert_one", .doc [("_id", .int 2), ("a", .int 1)]])).2.isErr)
+      = true :=
+  ⟨reachable_recorded {} _, by decide +kernel⟩
 
 /-! ### find_one_and_update / find_one_and_replace / find_one_and_delete -/
 
 /-- A find_one_and_* that raises leaves the collection exactly as it was.  Full statement (for
-    every such call): FALSE of the model and of the code — with `return_document=AFTER` the final
+    every such call, on every recorded collection): FALSE of the model and of the code — with `return_document=AFTER` the final
     read-back `find_one(query, projection)` runs after the write, so a projection that raises
     there (e.g. one mixing inclusion and exclusion) raises with the update or the upsert done. -/
 def fam_failed_noop_full : Prop :=
-  ∀ (cfg : Cfg) (now : Int) (c : Coll) (op : Val), famOp op = true →
+  ∀ (cfg : Cfg) (now : Int) (c : Coll) (op : Val), c.Recorded → famOp op = true →
     (stepX cfg now c op).2.isErr = true → Untouched now c (stepX cfg now c op).1
 
 theorem fam_failed_noop_full_fails : ¬ fam_failed_noop_full :=
@@ -117,32 +173,33 @@ theorem fam_failed_noop_full_fails : ¬ fam_failed_noop_full :=
 
 /-- the witness: `find_one_and_update({_id: 7}, {$set: {a: 5}}, projection={a: 1, b: 0},
     upsert=True, return_document=AFTER)` raises ValueError and leaves the upserted document -/
-example : famOp Proofs.C08Ext.famWitnessOp = true ∧
+example : Proofs.C08Ext.famWitnessColl.Recorded ∧ famOp Proofs.C08Ext.famWitnessOp = true ∧
     (stepX {} 0 Proofs.C08Ext.famWitnessColl Proofs.C08Ext.famWitnessOp).2.isErr = true ∧
     (stepX {} 0 Proofs.C08Ext.famWitnessColl Proofs.C08Ext.famWitnessOp).1.docs.length = 2 :=
-  Proofs.C08Ext.fam_witness
+  ⟨Proofs.C08Ext.witness_colls_recorded.1, Proofs.C08Ext.fam_witness⟩
 
 /-- **What holds for every find_one_and_* that raises**: the collection is exactly as it was —
     unless `return_document=AFTER` was requested, the same call with BEFORE succeeds, and the
     collection is exactly as that successful call leaves it (the write was done in full; only the
     read-back raised).  Never a partial write. -/
-theorem fam_failed_partial (cfg : Cfg) (now : Int) (c : Coll) (op : Val) (hop : famOp op = true)
-    (he : (stepX cfg now c op).2.isErr = true) :
+theorem fam_failed_partial (cfg : Cfg) (now : Int) (c : Coll) (op : Val) (hr : c.Recorded)
+    (hop : famOp op = true) (he : (stepX cfg now c op).2.isErr = true) :
     Untouched now c (stepX cfg now c op).1 ∨
     (famAfter op = true ∧ (stepX cfg now c (famBefore op)).2.isErr = false ∧
       Untouched now (stepX cfg now c (famBefore op)).1 (stepX cfg now c op).1) :=
-  Proofs.C08Ext.fam_failed_partial cfg now c op hop he
+  Proofs.C08Ext.fam_failed_partial cfg now c op hr hop he
 
 /-- **find_one_and_delete, and find_one_and_update / _replace with return_document=BEFORE, that
     raise leave the collection exactly as it was** — whatever raised: the filter, the sort, the
     projection, the update operators, an `_id` change, a duplicate key, an upsert that fails. -/
-theorem fam_failed_noop (cfg : Cfg) (now : Int) (c : Coll) (op : Val) (hop : famOp op = true)
-    (ha : famAfter op = false) (he : (stepX cfg now c op).2.isErr = true) :
+theorem fam_failed_noop (cfg : Cfg) (now : Int) (c : Coll) (op : Val) (hr : c.Recorded)
+    (hop : famOp op = true) (ha : famAfter op = false)
+    (he : (stepX cfg now c op).2.isErr = true) :
     Untouched now c (stepX cfg now c op).1 :=
-  Proofs.C08Ext.fam_failed_noop cfg now c op hop ha he
+  Proofs.C08Ext.fam_failed_noop cfg now c op hr hop ha he
 
 /-- … in a history (`stepXS`, the form of `failed_single_write_noop`): nothing observable changes
-    and the index tables are untouched. -/
+    and the index tables are untouched - whatever the state. -/
 theorem fam_failed_history_noop (cfg : Cfg) (s : St) (op : Val) (hop : famOp op = true)
     (ha : famAfter op = false) (he : (stepXS cfg s op).2.isErr = true) :
     visible (stepXS cfg s op).1 = visible s ∧
@@ -150,8 +207,15 @@ theorem fam_failed_history_noop (cfg : Cfg) (s : St) (op : Val) (hop : famOp op 
     (stepXS cfg s op).1.c.ttlIndexes = s.c.ttlIndexes :=
   Proofs.C08Ext.fam_failed_history_noop cfg s op hop ha he
 
-/-- non-vacuity: on two documents and a unique index, a sorted find_one_and_update whose `$set`
-    collides with the other document (DuplicateKeyError after the target was rewritten in place) -/
+/-- non-vacuity: on two documents and a unique index (a reachable, hence recorded, state), a sorted
+    find_one_and_update whose `$set` collides with the other document (DuplicateKeyError after the
+    target was rewritten in place) -/
+example : (runX {} [
+      .arr [.str "insert_one", .doc [("_id", .int 1), ("a", .int 1)]],
+      .arr [.str "insert_one", .doc [("_id", .int 2), ("a", .int 2)]],
+      .arr [.str "create_index", .arr [.arr [.str "a", .int 1]], .doc [("unique", .bool true)]]]).2.c.Recorded :=
+  reachable_recorded {} _
+
 example : (match (run {} [
       .arr [.str "insert_one", .doc [("_id", .int 1), ("a", .int 1)]],
       .arr [.str "insert_one", .doc [("_id", .int 2), ("a", .int 2)]],
@@ -234,16 +298,16 @@ theorem stepX_bulk_write (cfg : Cfg) (now : Int) (c : Coll) (reqs : List Val) (o
     ReplaceOne, DeleteOne, DeleteMany, and any malformed request), whether the failure is a write
     error the bulk collects or an exception that aborts it. -/
 theorem bulk_failed_request_noop (cfg : Cfg) (now : Int) (c c' : Coll) (idx : Nat) (req : Val)
-    (o : BulkOut) (ha : atomicRequest req = true)
+    (o : BulkOut) (hr : c.Recorded) (ha : atomicRequest req = true)
     (h : bulkOne cfg now c idx req = (c', o)) (ho : requestFailed o = true) :
     Untouched now c c' :=
-  Proofs.C08Ext.bulk_failed_request_noop cfg now c c' idx req o ha h ho
+  Proofs.C08Ext.bulk_failed_request_noop cfg now c c' idx req o hr ha h ho
 
 /-- For every kind of request: FALSE — an `UpdateMany` request fails at document granularity,
     like `update_many`. -/
 def bulk_failed_request_noop_full : Prop :=
   ∀ (cfg : Cfg) (now : Int) (c c' : Coll) (idx : Nat) (req : Val) (o : BulkOut),
-    bulkOne cfg now c idx req = (c', o) → requestFailed o = true → Untouched now c c'
+    c.Recorded → bulkOne cfg now c idx req = (c', o) → requestFailed o = true → Untouched now c c'
 
 theorem bulk_failed_request_noop_full_fails : ¬ bulk_failed_request_noop_full :=
   Proofs.C08Ext.bulk_failed_request_noop_full_fails
@@ -261,11 +325,13 @@ theorem bulk_failed_update_many (cfg : Cfg) (now : Int) (c c' : Coll) (idx : Nat
 
 /-- non-vacuity (both theorems and the witness of `_full_fails`): a failing `UpdateMany` that
     has incremented the first document, a failing `InsertOne` -/
-example : requestFailed (bulkOne {} 0 Proofs.C08Ext.manyWitnessColl 0 Proofs.C08Ext.manyWitnessReq).2
+example : Proofs.C08Ext.manyWitnessColl.Recorded ∧
+    requestFailed (bulkOne {} 0 Proofs.C08Ext.manyWitnessColl 0 Proofs.C08Ext.manyWitnessReq).2
       = true ∧
     atomicRequest (.arr [.str "InsertOne", .doc [("_id", .int 1)]]) = true ∧
     requestFailed (bulkOne {} 0 Proofs.C08Ext.manyWitnessColl 0
-      (.arr [.str "InsertOne", .doc [("_id", .int 1)]])).2 = true := by decide +kernel
+      (.arr [.str "InsertOne", .doc [("_id", .int 1)]])).2 = true :=
+  ⟨Proofs.C08Ext.witness_colls_recorded.2.1, by decide +kernel, by decide +kernel, by decide +kernel⟩
 
 /-- `seqAllOk` and `seqFailures` agree: all operations succeed one at a time iff none fails. -/
 theorem seqAllOk_iff_no_failures (cfg : Cfg) (now : Int) (ops : List Val) (c : Coll) (i : Nat) :
@@ -279,6 +345,7 @@ theorem seqAllOk_iff_no_failures (cfg : Cfg) (now : Int) (ops : List Val) (c : C
     collection after `pre` when `r` is all-or-nothing), nothing of `post` is applied, and the
     BulkWriteError reports the single position `pre.length`. -/
 theorem bulk_ordered_stops_at_first_failure (cfg : Cfg) (now : Int) (c : Coll) (reqs : List Val)
+    (hr : c.Recorded)
     (hp : reqs.all plainRequest = true) (hv : bulkPrecheck reqs = .ok ()) (hne : reqs ≠ []) :
     ((bulkWrite cfg now c reqs true).2.isErr = false →
       seqAllOk cfg now (reqs.map asSingle) c = true ∧
@@ -293,7 +360,7 @@ theorem bulk_ordered_stops_at_first_failure (cfg : Cfg) (now : Int) (c : Coll) (
           Untouched now (seqOps cfg now (pre.map asSingle) c) (bulkWrite cfg now c reqs true).1) ∧
         (∀ details, (bulkWrite cfg now c reqs true).2 = .bulkErr details →
           errorPositions details = [.int pre.length])) :=
-  Proofs.C08Ext.bulk_ordered_stops_at_first_failure cfg now c reqs hp hv hne
+  Proofs.C08Ext.bulk_ordered_stops_at_first_failure cfg now c reqs hr hp hv hne
 
 /-- **Unordered bulk_write applies every operation that succeeds on its own** (when no request
     aborts the batch): the final collection is the one-at-a-time run of all the requests, each
@@ -311,8 +378,11 @@ theorem bulk_unordered_applies_every_success (cfg : Cfg) (now : Int) (c : Coll) 
         (seqFailures cfg now (reqs.map asSingle) c 0).map (fun i : Nat => Val.int i)) :=
   Proofs.C08Ext.bulk_unordered_applies_every_success cfg now c reqs hp hv hne hw
 
-/-- non-vacuity: six requests of five kinds on four documents; requests 1 (duplicate `_id`) and 3
-    (`$set` of `_id`) raise write errors; ordered stops at 1, unordered reports `[1, 3]` -/
+/-- non-vacuity: six requests of five kinds on four documents (`granColl`, recorded); requests 1
+    (duplicate `_id`) and 3 (`$set` of `_id`) raise write errors; ordered stops at 1, unordered
+    reports `[1, 3]` -/
+example : Proofs.C08Ext.granColl.Recorded := Proofs.C08Ext.witness_colls_recorded.2.2
+
 example :
     let reqs : List Val := [
       .arr [.str "InsertOne", .doc [("_id", .int 9)]],
